@@ -223,6 +223,9 @@ void vf_native_note(const char * msg);
 /* Comparison results for the bounded harnesses: only the SIGN of a comparison is specified, so
  * the magnitude follows a fixed pattern over the calls (1s, where two results tie, and larger
  * values); a subtracting comparator would hide code that relies on magnitudes (seeded change C07-2). */
+/* the value with which the k-th visit asks a traversal to stop: any NON-ZERO value stops it and is
+ * returned, negative ones included (seeded change C12-8 stopped only for positive results) */
+#define VF_STOPVAL(k) (((k) & 1) ? -(7 + (k)) : (7 + (k)))
 /* the private pointer every harness hands to its comparison function; the comparison insists on it
  * (seeded change C12-6 passed NULL in one recursive call) */
 static int vf_cmp_token;
